@@ -48,19 +48,19 @@ func isSQLWriteCall(o types.Object) bool {
 }
 
 type sinkInfo struct {
-	c            *Ctx
-	getWriter    *types.Var
-	getReader    *types.Var
-	closeWriter  *types.Var
-	closeReader  *types.Var
-	writeOpsS    *types.Var
-	writeOpsF    *types.Var
-	getBufS      *types.Var
-	getBufF      *types.Var
-	mutators     map[string]bool // method names of the index-store interface that change rows
-	mutatorObjs  map[*types.Func]bool
-	reach        map[*FuncInfo]int // 0 unknown, 1 in progress, 2 no, 3 yes
-	reachWhy     map[*FuncInfo]string
+	c           *Ctx
+	getWriter   *types.Var
+	getReader   *types.Var
+	closeWriter *types.Var
+	closeReader *types.Var
+	writeOpsS   *types.Var
+	writeOpsF   *types.Var
+	getBufS     *types.Var
+	getBufF     *types.Var
+	mutators    map[string]bool // method names of the index-store interface that change rows
+	mutatorObjs map[*types.Func]bool
+	reach       map[*FuncInfo]int // 0 unknown, 1 in progress, 2 no, 3 yes
+	reachWhy    map[*FuncInfo]string
 }
 
 func (c *Ctx) sinks() *sinkInfo {
